@@ -285,7 +285,7 @@ impl Deserializable for TraceInfo {
         let aux_segment_width = source.read_u8()? as usize;
 
         let full_trace_width = main_segment_width + aux_segment_width;
-        if full_trace_width >= TraceInfo::MAX_TRACE_WIDTH {
+        if full_trace_width > TraceInfo::MAX_TRACE_WIDTH {
             return Err(DeserializationError::InvalidValue(format!(
                 "full trace width cannot be greater than {}, but was {}",
                 TraceInfo::MAX_TRACE_WIDTH,
